@@ -6,6 +6,7 @@ mod range;
 mod bytes;
 mod vecs;
 mod concat;
+mod counter;
 
 #[global_allocator]
 static GLOBAL: alloc::Tracking = alloc::Tracking;
@@ -38,6 +39,7 @@ fn main() {
         "bytes" => bytes::run(&out, &tier, seed, &rest),
         "vec" => vecs::run(&out, &tier, seed, &rest),
         "concat" => concat::run(&out, &tier, seed, &rest),
+        "counter" => counter::run(&out, &tier, seed, &rest),
         _ => { eprintln!("unknown driver {}", driver); std::process::exit(2); }
     }
 }
